@@ -18,7 +18,10 @@ class FaultSim(mosaik_api_v3.Simulator):
         with open(self.logfile, "a") as f:
             f.write(f"{what} {self.sid} {os.getpid()}\n")
 
-    def init(self, sid, time_resolution=1.0, logfile=None, fault=None, api=None, **kw):
+    def init(self, sid, time_resolution=1.0, logfile=None, fault=None, api=None, typ=None, **kw):
+        if typ:
+            self.meta = dict(self.meta, type=typ)
+        self.typ = typ or "time-based"
         if api:
             # an older simulator: mosaik wraps it in adapters (V3ToV2Adapter, below 2.2 also V2ToV1Adapter)
             self.meta = dict(META, api_version=api)
@@ -36,7 +39,8 @@ class FaultSim(mosaik_api_v3.Simulator):
         self._log(f"req:{name}:{k}")
         if self.fault and self.fault["index"] == k:
             if self.fault["kind"] == "raise":
-                raise ValueError(f"injected fault in {name} of {self.sid}")
+                exc = {"TypeError": TypeError, "KeyError": KeyError, "RuntimeError": RuntimeError}.get(self.fault.get("exc"), ValueError)
+                raise exc(f"injected fault in {name} of {self.sid}")
             if self.fault["kind"] == "exit":
                 os._exit(3)
 
@@ -48,7 +52,7 @@ class FaultSim(mosaik_api_v3.Simulator):
 
     def step(self, time, inputs, max_advance=None):
         self._request("step")
-        return time + 1
+        return None if self.typ == "event-based" else time + 1
 
     def get_data(self, outputs):
         self._request("get_data")
